@@ -19,7 +19,7 @@ func init() {
 		LevelText:   "Structural preconditions of the log contract decided for all paths: offsets are assigned as base+i from the active segment's next offset and the same value is serialised, indexed and returned; only the leader loop appends, only the follower handler appends message sets, only the two reconciliation functions truncate; file-system effects on log files occur only in the owning functions; segment/index/log fields are accessed under their locks; an index slot is never computed arithmetically from a log offset; the binary-search predicates have the documented shape; a message is returned only after its CRC matched. That reads equal appends for every workload is not decided.",
 		LevelNote:   "Trusted: go/ssa, CHA call graph, the frozen owner/lock/unit tables in rules/c01.go.",
 		DesignRef:   "DESIGN.md §4 C01",
-		Explanation: "R01.17 also (round 10): Encode writes the key as it is (empty is not nil). R05.8 (shared, round 8): every answer of InitializePosition can reach the entry the reopened segment's bookkeeping is filled from; the index rebuild never takes the segment size limit for a bound on one message set. R01.14 also: after a wait the segment list is fetched again before it is searched; R01.8 also: findLastEntryIndex answers -1, not an error. R01.17 the encoder writes the null size exactly for a nil slice; R05.1 / R05.3 (shared with C05) log-then-index and the ordering of Replace; R03.4 (shared) a reader whose watermark segment was replaced re-initialises (F98). R01.16 an append without messages reaches neither the roll nor the write (F90); R01.8 also: the first-write bookkeeping is keyed on firstOffset == -1, a mark no write can store (F89); R03.15 (shared) parked committed readers and appends share a wake-up source (known finding K16). R01.5 also: the position a reader takes from the index is the one found for the offset it asked for; R05.7 (shared) Truncate deletes the later segments newest first (F77). R01.1 offset/position identity, R01.2 single writer, R01.3 file ownership, R01.4 lock discipline, R01.5 unit discipline, R01.6 search predicates, R01.7 CRC before return, R01.8 arithmetic / bookkeeping shapes (roll base offset, index read bound, first/last bookkeeping, truncate list surgery, replaced flag, waiter registration), R01.9 a reader's segment and resume offset always come from a lookup of / the message at its own position, R01.10 entries handed out by the index scanners are not retained across Scan calls, R01.11 every decoded 32-bit size is tested against the nil marker before it enters position arithmetic. R14.6 (shared) the roll's ErrSegmentExists arrives unwrapped at its identity test; R03.10 (shared) a reader's Read fills the buffer or reports an error. NOT decided: read-back equals append history, segment-boundary alignment, restart equivalence.",
+		Explanation: "Round 12: R05.8 also: a partial write found when the index is rebuilt at open is cut off the log file (append mode writes at the end of the file, whatever the position field says). R01.17 also (round 10): Encode writes the key as it is (empty is not nil). R05.8 (shared, round 8): every answer of InitializePosition can reach the entry the reopened segment's bookkeeping is filled from; the index rebuild never takes the segment size limit for a bound on one message set. R01.14 also: after a wait the segment list is fetched again before it is searched; R01.8 also: findLastEntryIndex answers -1, not an error. R01.17 the encoder writes the null size exactly for a nil slice; R05.1 / R05.3 (shared with C05) log-then-index and the ordering of Replace; R03.4 (shared) a reader whose watermark segment was replaced re-initialises (F98). R01.16 an append without messages reaches neither the roll nor the write (F90); R01.8 also: the first-write bookkeeping is keyed on firstOffset == -1, a mark no write can store (F89); R03.15 (shared) parked committed readers and appends share a wake-up source (known finding K16). R01.5 also: the position a reader takes from the index is the one found for the offset it asked for; R05.7 (shared) Truncate deletes the later segments newest first (F77). R01.1 offset/position identity, R01.2 single writer, R01.3 file ownership, R01.4 lock discipline, R01.5 unit discipline, R01.6 search predicates, R01.7 CRC before return, R01.8 arithmetic / bookkeeping shapes (roll base offset, index read bound, first/last bookkeeping, truncate list surgery, replaced flag, waiter registration), R01.9 a reader's segment and resume offset always come from a lookup of / the message at its own position, R01.10 entries handed out by the index scanners are not retained across Scan calls, R01.11 every decoded 32-bit size is tested against the nil marker before it enters position arithmetic. R14.6 (shared) the roll's ErrSegmentExists arrives unwrapped at its identity test; R03.10 (shared) a reader's Read fills the buffer or reports an error. NOT decided: read-back equals append history, segment-boundary alignment, restart equivalence.",
 	})
 }
 
